@@ -22,7 +22,7 @@ def validate_decoded(iterable):
             "the list contains an object of class {}\n".format(type(elem))+
             "(accepted classes: gfapy.OrientedLine)")
     elem.validate()
-    if not re.match(r"^[!-~]+\Z", elem.name):
+    if not re.match(r"^[!-~]+\Z", str(elem.name)):
       raise gfapy.FormatError(
         "the list contains an invalid GFA2 identifier {}\n".format(elem.name)+
         "(it contains spaces and/or non-printable characters)")
